@@ -137,6 +137,11 @@ def plan(tier, seed):
     for q in num.Q8:
         for dtname in ("float32", "float16", "bfloat16"):
             tasks.append({"kind": "layout", "q": q, "dt": dtname})
+            # size ladder (more than 2^20 elements, non power-of-two dimensions, every layout) and repetition ladder
+            big = [[1025, 1031]] if tier == "quick" else [[1025, 1031], [2049, 2050], [3, 700, 521], [1048583]]
+            for shp in big:
+                tasks.append({"kind": "layout", "q": q, "dt": dtname, "shapes": [shp]})
+            tasks.append({"kind": "repeat", "q": q, "dt": dtname, "n": 48 if tier == "quick" else 200})
     return tasks
 
 
@@ -304,8 +309,10 @@ def _layout_task(task):
     vs = []
     stats = {"saturating": 0, "ties": 0, "offgrid": 0, "elements": 0, "calls": 0, "cases": 0}
     only = task.get("only")
-    for rank in range(1, 5):
-        for shape in itertools.product((1, 2, 3), repeat=rank):
+    shapes = [tuple(s_) for s_ in task["shapes"]] if task.get("shapes") else [shape for rank in range(1, 5) for shape in itertools.product((1, 2, 3), repeat=rank)]
+    for shape in shapes:
+        rank = len(shape)
+        if True:
             for lname, x in _layout_variants(shape, dt):
                 for mode in ("none", "tensor", "axis0", "axism1"):
                     if mode in ("axis0", "axism1"):
@@ -315,7 +322,7 @@ def _layout_task(task):
                         sshape = [1] * rank
                         sshape[ax] = shape[ax]
                         j = torch.arange(shape[ax], dtype=torch.float64)
-                        sc = (0.05 * (j + 1) * 1.7**j).to(dt).reshape(sshape)
+                        sc = (0.05 * (j % 7 + 1) * 1.7 ** (j % 5)).to(dt).reshape(sshape)
                     else:
                         sc = torch.tensor(0.173, dtype=dt)
                     if only and only != [list(shape), lname, mode]:
@@ -338,10 +345,76 @@ def _layout_task(task):
     return vs, stats
 
 
+def _repeat_task(task):
+    """Repetition ladder: the n-th call must behave like the first. (a) the same quantized tensor is dequantized n times and every
+    returned tensor is scribbled on afterwards (results must be fresh, never an internal buffer); (b) n same-shaped tensors are
+    quantized, all results are held and judged only at the end (no result may be overwritten by a later call)."""
+    qname, dtname, n = task["q"], task["dt"], task["n"]
+    dt = num.DTYPES[dtname]
+    vs = []
+    stats = {"elements": 0, "calls": 0, "cases": 0}
+    only = task.get("only")
+    idx = torch.arange(32, dtype=torch.float64).reshape(4, 8)
+    base = ((((idx * 37) % 61) - 30) * 0.37 + idx * 0.001)
+    for mode in ("none", "tensor", "axis0", "axism1"):
+        if only and only != [mode]:
+            continue
+        if mode in ("axis0", "axism1"):
+            ax = 0 if mode == "axis0" else -1
+            sshape = [1, 1]
+            sshape[ax] = base.shape[ax]
+            j = torch.arange(base.shape[ax], dtype=torch.float64)
+            sc = (0.05 * (j + 1) * 1.3**j).to(dt).reshape(sshape)
+        else:
+            sc = torch.tensor(0.173, dtype=dt)
+        fields = {"dtype": dtname, "qtype": qname, "mode": mode, "layout": "repeat"}
+        case = dict(task, only=[mode])
+        stats["cases"] += 1
+        try:
+            x = base.to(dt)
+            q = _quantize(x, sc, qname, mode)
+            first = q.dequantize().clone()
+            res, st = judge(x, sc, q, dtname, qname, mode)
+            for sub, mask, extra in res:
+                vs.append(violation(PID, case, dict(fields, sub=sub, **{k: v for k, v in extra.items() if k != "msg"}), f"{sub}: repeat base case mode {mode} ({dtname},{qname}) {extra.get('msg', '')}"))
+            for i in range(n):
+                d = q.dequantize()
+                stats["calls"] += 1
+                if not num.same_bits(d, first):
+                    vs.append(violation(PID, case, dict(fields, sub="repeat_dequantize"), f"repeat_dequantize: dequantization #{i + 2} of the same quantized tensor differs from the first one (mode {mode}, {dtname}, {qname}); earlier results had been modified in place by the caller"))
+                    break
+                d.neg_().add_(3.0)  # the caller owns the result
+            held = []
+            for i in range(n):
+                xi = (base * (1.0 + i / 8.0) + (i % 5) * 0.01).to(dt)
+                held.append((xi, _quantize(xi, sc, qname, mode)))
+                stats["calls"] += 1
+            for i, (xi, qi) in enumerate(held):
+                res, st = judge(xi, sc, qi, dtname, qname, mode, want_idem=False)
+                stats["elements"] += st.get("elements", 0)
+                for sub, mask, extra in res:
+                    vs.append(violation(PID, case, dict(fields, sub="held_" + sub), f"held_{sub}: result #{i + 1} of {n} same-shaped quantizations, judged after all of them ran (mode {mode}, {dtname}, {qname}) {extra.get('msg', '')}"))
+                    break
+                if len(vs) > 8:
+                    break
+        except Exception as e:  # noqa
+            vs.append(violation(PID, case, dict(fields, sub="raised"), f"raised: {type(e).__name__}: {e} in the repetition ladder mode {mode}"))
+    return vs, stats
+
+
 def run_task(task):
     kind = task["kind"]
     out = {"evals": 0, "nontrivial": 0, "points": 0, "calls": 0, "violations": [], "samples": [], "counters": {}}
-    if kind == "half":
+    if kind == "repeat":
+        vs, st = _repeat_task(task)
+        out["violations"] += vs[:20]
+        out["nviol"] = len(vs)
+        out["evals"] += st["elements"]
+        out["points"] += st["cases"]
+        out["calls"] += st["calls"]
+        out["nontrivial"] += st["cases"]
+        out["counters"]["repeat_calls"] = st["calls"]
+    elif kind == "half":
         dtname, qname = task["dt"], task["q"]
         scales = (_half_scales_quick(dtname) if task["set"] == "quick" else num.all_positive_finite_half(dtname))[task["lo"]:task["hi"]]
         xs = num.all_finite_half(dtname)
@@ -404,6 +477,8 @@ def run_task(task):
 def replay_task(case):
     if case["kind"] == "layout":
         return _layout_task(case)[0]
+    if case["kind"] == "repeat":
+        return _repeat_task(case)[0]
     dtname, qname, mode = case["dt"], case["q"], case["mode"]
     dt = num.DTYPES[dtname]
     x = _from_hex(case["x_hex"], dt)
